@@ -760,13 +760,35 @@ theorem Kind.extends (k : Kind) : Extends k.codec := by
   | uslpTruncated v => exact key _ _ (uslpTruncated_local v).extends
   | byteField n => exact key _ _ (byteField_local n).extends
 
-/-- kinds whose decoded object always reports the declared length -/
-def Kind.exact : Kind → Bool
-  | .fsRequest => false
-  | .fsResponse => false
-  | _ => true
+/-- every accepted filestore request reports exactly the declared TLV length (slack inside the value
+    field is refused since /repo d425927) … -/
+theorem fsRequest_len_declared {d : Bytes} {x : Tlv.FileStoreRequestTlv}
+    (h : Tlv.FileStoreRequestTlv.unpack d = .ok x) : x.packetLen = tlvDeclaredLen d := by
+  have h' : (Tlv.CfdpTlv.unpack d >>= Tlv.FileStoreRequestTlv.fromTlv) = .ok x := h
+  cases ht : Tlv.CfdpTlv.unpack d with
+  | error e => rw [ht] at h'; cases h'
+  | ok t =>
+    rw [ht] at h'
+    have hf : Tlv.FileStoreRequestTlv.fromTlv t = .ok x := h'
+    rw [← tlv_declared ht]; exact Tlv.FileStoreRequestTlv.fromTlv_len_exact hf
 
-theorem Kind.local (k : Kind) (hk : k.exact = true) : Local k.codec := by
+theorem fsResponse_len_declared {d : Bytes} {x : Tlv.FileStoreResponseTlv}
+    (h : Tlv.FileStoreResponseTlv.unpack d = .ok x) : x.packetLen = tlvDeclaredLen d := by
+  have h' : (Tlv.CfdpTlv.unpack d >>= Tlv.FileStoreResponseTlv.fromTlv) = .ok x := h
+  cases ht : Tlv.CfdpTlv.unpack d with
+  | error e => rw [ht] at h'; cases h'
+  | ok t =>
+    rw [ht] at h'
+    have hf : Tlv.FileStoreResponseTlv.fromTlv t = .ok x := h'
+    rw [← tlv_declared ht]; exact Tlv.FileStoreResponseTlv.fromTlv_len_exact hf
+
+/-- … so the two filestore codecs are local like all the others -/
+theorem fsRequest_local : Local fsRequestCodec := fun _ _ h => fsRequest_localAt h (fsRequest_len_declared h)
+theorem fsResponse_local : Local fsResponseCodec := fun _ _ h => fsResponse_localAt h (fsResponse_len_declared h)
+
+/-- every kind of the table: every accepted buffer is determined by the first `len` octets, `len`
+    being the length the decoded object reports -/
+theorem Kind.local (k : Kind) : Local k.codec := by
   cases k with
   | sph => exact sph_local.map Decoded.sph Decoded.len (fun _ => rfl)
   | tc => exact tc_local.map Decoded.tc Decoded.len (fun _ => rfl)
@@ -783,8 +805,8 @@ theorem Kind.local (k : Kind) (hk : k.exact = true) : Local k.codec := by
   | flowLabel => exact flowLabel_local.map Decoded.flowLabel Decoded.len (fun _ => rfl)
   | msgToUser => exact msgToUser_local.map Decoded.msgToUser Decoded.len (fun _ => rfl)
   | faultHandler => exact faultHandler_local.map Decoded.faultHandler Decoded.len (fun _ => rfl)
-  | fsRequest => cases hk
-  | fsResponse => cases hk
+  | fsRequest => exact fsRequest_local.map Decoded.fsRequest Decoded.len (fun _ => rfl)
+  | fsResponse => exact fsResponse_local.map Decoded.fsResponse Decoded.len (fun _ => rfl)
   | uslpPrimary v => exact (uslpPrimary_local v).map Decoded.uslpPrimary Decoded.len (fun _ => rfl)
   | uslpTruncated v => exact (uslpTruncated_local v).map Decoded.uslpTruncated Decoded.len (fun _ => rfl)
   | byteField n => exact (byteField_local n).map Decoded.byteField Decoded.len (fun _ => rfl)
